@@ -1,7 +1,434 @@
-(* Graph/Proofs.v -- lemmas about Graph/Model.v *)
-From Coq Require Import List Arith Bool Lia Relations.
+(* Graph/Proofs.v -- lemmas about Graph/Model.v : basic facts, BFS (reachable,
+   bi_reachable, connected) and the filter-based queries. *)
+From Coq Require Import List Arith Bool Lia Relations Operators_Properties.
 Import ListNotations.
 From Heph Require Import Graph.Model Graph.Spec.
 
 Lemma bi_reachable_def g s d : bi_reachable g s d = reachable g s d || reachable g d s.
 Proof. reflexivity. Qed.
+
+(* ------------------------------------------------------------------ *)
+(* mem / is_key / adj                                                   *)
+(* ------------------------------------------------------------------ *)
+
+Lemma mem_In v l : mem v l = true <-> In v l.
+Proof.
+  unfold mem. rewrite existsb_exists. split.
+  - intros [x [Hin Heq]]. apply Nat.eqb_eq in Heq. subst. exact Hin.
+  - intros Hin. exists v. split; [exact Hin | apply Nat.eqb_refl].
+Qed.
+
+Lemma mem_false v l : mem v l = false <-> ~ In v l.
+Proof.
+  rewrite <- mem_In. destruct (mem v l); split; intros H; congruence.
+Qed.
+
+Lemma mem_cons a v l : mem a (v :: l) = Nat.eqb a v || mem a l.
+Proof. reflexivity. Qed.
+
+Lemma is_key_In g v : is_key g v = true <-> In v (keys g).
+Proof. unfold is_key. apply mem_In. Qed.
+
+Lemma is_key_false g v : is_key g v = false <-> ~ In v (keys g).
+Proof. unfold is_key. apply mem_false. Qed.
+
+Lemma keys_length g : length (keys g) = length g.
+Proof. unfold keys. apply map_length. Qed.
+
+(* only keys have a non-empty adjacency list *)
+Lemma adj_In_key g u v : In v (adj g u) -> In u (keys g).
+Proof.
+  induction g as [|[k l] g IH]; simpl; intros H; [contradiction|].
+  destruct (Nat.eqb k u) eqn:E.
+  - left. apply Nat.eqb_eq. exact E.
+  - right. apply IH. exact H.
+Qed.
+
+Lemma Edge_adj g u v : Edge g u v <-> In v (adj g u).
+Proof.
+  unfold Edge. split; [intros [_ H]; exact H|].
+  intros H. split; [eapply adj_In_key; eauto | exact H].
+Qed.
+
+Lemma key_item g u : In u (keys g) -> In (u, adj g u) g.
+Proof.
+  induction g as [|[k l] g IH]; simpl; intros H; [contradiction|].
+  destruct (Nat.eqb k u) eqn:E.
+  - apply Nat.eqb_eq in E. subst. left. reflexivity.
+  - destruct H as [H|H]; [subst; rewrite Nat.eqb_refl in E; discriminate|].
+    right. apply IH. exact H.
+Qed.
+
+Lemma wf_item g k l : WfGraph g -> In (k, l) g -> adj g k = l.
+Proof.
+  unfold WfGraph. induction g as [|[k0 l0] g IH]; simpl; intros Hnd Hin; [contradiction|].
+  inversion Hnd as [|? ? Hnotin Hnd']; subst.
+  destruct Hin as [Heq|Hin].
+  - inversion Heq; subst. rewrite Nat.eqb_refl. reflexivity.
+  - destruct (Nat.eqb k0 k) eqn:E.
+    + apply Nat.eqb_eq in E. subst. exfalso. apply Hnotin.
+      change k with (fst (k, l)). apply in_map. exact Hin.
+    + apply IH; assumption.
+Qed.
+
+(* reflexive-transitive closure is monotone *)
+Lemma crt_impl (R1 R2 : relation nat) :
+  (forall u v, R1 u v -> R2 u v) ->
+  forall u v, clos_refl_trans nat R1 u v -> clos_refl_trans nat R2 u v.
+Proof.
+  intros H u v Hp. induction Hp as [x y Hs | x | x y z _ IH1 _ IH2].
+  - apply rt_step. apply H. exact Hs.
+  - apply rt_refl.
+  - eapply rt_trans; eauto.
+Qed.
+
+(* a set containing s and closed under R contains everything R*-reachable from s *)
+Lemma crt_closed (R : relation nat) (P : nat -> Prop) :
+  (forall u v, P u -> R u v -> P v) ->
+  forall s d, clos_refl_trans nat R s d -> P s -> P d.
+Proof.
+  intros Hcl s d Hp. apply clos_rt_rt1n in Hp.
+  induction Hp as [x | x y z Hxy _ IH]; intros Hs; [exact Hs|].
+  apply IH. eapply Hcl; eauto.
+Qed.
+
+(* ------------------------------------------------------------------ *)
+(* counting the members of l that are not yet visited                   *)
+(* ------------------------------------------------------------------ *)
+
+Definition cnt (l vis : list nat) : nat :=
+  length (filter (fun k => negb (mem k vis)) l).
+
+Lemma cnt_le_length l vis : cnt l vis <= length l.
+Proof.
+  unfold cnt. induction l as [|a l IH]; simpl; [lia|].
+  destruct (negb (mem a vis)); simpl; lia.
+Qed.
+
+Lemma cnt_cons_le l v vis : cnt l (v :: vis) <= cnt l vis.
+Proof.
+  unfold cnt. induction l as [|a l IH]; [simpl; lia|].
+  cbn [filter]. rewrite mem_cons.
+  destruct (Nat.eqb a v); destruct (mem a vis); cbn [orb negb length]; lia.
+Qed.
+
+Lemma cnt_cons_lt l v vis : In v l -> ~ In v vis -> cnt l (v :: vis) < cnt l vis.
+Proof.
+  intros Hin Hnv. unfold cnt. induction l as [|a l IH]; [contradiction|].
+  cbn [filter]. rewrite mem_cons.
+  destruct Hin as [Heq|Hin].
+  - subst a. rewrite Nat.eqb_refl.
+    apply mem_false in Hnv. rewrite Hnv. cbn [orb negb length].
+    pose proof (cnt_cons_le l v vis) as Hle. unfold cnt in Hle. lia.
+  - specialize (IH Hin).
+    destruct (Nat.eqb a v); destruct (mem a vis); cbn [orb negb length]; lia.
+Qed.
+
+(* ------------------------------------------------------------------ *)
+(* generic BFS over an arbitrary neighbour function                     *)
+(* ------------------------------------------------------------------ *)
+
+Section GBFS.
+  Variable g : graph.
+  Variable nbrs : nat -> list nat.
+
+  Fixpoint gbfs (fuel : nat) (d : nat) (queue visited : list nat) : option bool :=
+    match fuel with
+    | O => None
+    | S f =>
+        match queue with
+        | [] => Some false
+        | x :: q =>
+            if Nat.eqb x d then Some true
+            else let '(q', vis') := fold_left (bfs_push g) (nbrs x) (q, visited) in
+                 gbfs f d q' vis'
+        end
+    end.
+
+  Definition GE (u v : nat) : Prop := In u (keys g) /\ In v (nbrs u) /\ In v (keys g).
+
+  Lemma push_fold l : forall q vis q' vis',
+    fold_left (bfs_push g) l (q, vis) = (q', vis') ->
+    exists new, q' = q ++ new /\ vis' = rev new ++ vis /\
+      (forall v, In v new -> In v l /\ In v (keys g) /\ ~ In v vis) /\
+      (forall v, In v l -> In v (keys g) -> In v vis') /\
+      length new + cnt (keys g) vis' <= cnt (keys g) vis.
+  Proof.
+    induction l as [|a l IH]; intros q vis q' vis' Hf.
+    - simpl in Hf. inversion Hf; subst. exists []. simpl.
+      rewrite app_nil_r. repeat split; try tauto; try lia.
+    - cbn [fold_left] in Hf. unfold bfs_push at 2 in Hf.
+      destruct (is_key g a && negb (mem a vis)) eqn:Hc.
+      + apply andb_true_iff in Hc. destruct Hc as [Hka Hna].
+        apply is_key_In in Hka. apply negb_true_iff in Hna. apply mem_false in Hna.
+        destruct (IH _ _ _ _ Hf) as [new [Hq [Hv [Hs [Hcpl Hm]]]]].
+        exists (a :: new). split; [|split; [|split; [|split]]].
+        * rewrite Hq. rewrite <- app_assoc. reflexivity.
+        * rewrite Hv. cbn [rev]. rewrite <- app_assoc. reflexivity.
+        * intros v [Hva|Hvn].
+          -- subst v. split; [left; reflexivity|]. split; assumption.
+          -- destruct (Hs v Hvn) as [H1 [H2 H3]].
+             split; [right; exact H1|]. split; [exact H2|].
+             intros Hc. apply H3. right. exact Hc.
+        * intros v [Hva|Hvl] Hkv.
+          -- subst v. rewrite Hv. apply in_or_app. right. left. reflexivity.
+          -- apply Hcpl; assumption.
+        * pose proof (cnt_cons_lt (keys g) a vis Hka Hna) as Hlt.
+          cbn [length]. lia.
+      + destruct (IH _ _ _ _ Hf) as [new [Hq [Hv [Hs [Hcpl Hm]]]]].
+        exists new. split; [exact Hq|]. split; [exact Hv|]. split; [|split].
+        * intros v Hvn. destruct (Hs v Hvn) as [H1 [H2 H3]].
+          split; [right; exact H1|]. split; assumption.
+        * intros v [Hva|Hvl] Hkv.
+          -- subst v. apply andb_false_iff in Hc. destruct Hc as [Hc|Hc].
+             ++ apply is_key_In in Hkv. congruence.
+             ++ apply negb_false_iff in Hc. apply mem_In in Hc.
+                rewrite Hv. apply in_or_app. right. exact Hc.
+          -- apply Hcpl; assumption.
+        * exact Hm.
+  Qed.
+
+  Lemma gbfs_fuel : forall fuel d q vis,
+    length q + cnt (keys g) vis < fuel -> gbfs fuel d q vis <> None.
+  Proof.
+    induction fuel as [|f IH]; intros d q vis Hm; [lia|].
+    cbn [gbfs]. destruct q as [|x q]; [discriminate|].
+    destruct (Nat.eqb x d); [discriminate|].
+    destruct (fold_left (bfs_push g) (nbrs x) (q, vis)) as [q' vis'] eqn:Hf.
+    destruct (push_fold _ _ _ _ _ Hf) as [new [Hq [Hv [_ [_ Hmm]]]]].
+    apply IH. subst q'. rewrite app_length. cbn [length] in Hm. lia.
+  Qed.
+
+  Lemma gbfs_sound s : forall fuel d q vis,
+    (forall u, In u q -> In u vis) ->
+    (forall u, In u vis -> In u (keys g) /\ clos_refl_trans nat GE s u) ->
+    gbfs fuel d q vis = Some true -> clos_refl_trans nat GE s d.
+  Proof.
+    induction fuel as [|f IH]; intros d q vis Hqv Hinv Hr; [discriminate|].
+    cbn [gbfs] in Hr. destruct q as [|x q]; [discriminate|].
+    destruct (Nat.eqb x d) eqn:Hxd.
+    - apply Nat.eqb_eq in Hxd. subst x. apply Hinv. apply Hqv. left. reflexivity.
+    - destruct (fold_left (bfs_push g) (nbrs x) (q, vis)) as [q' vis'] eqn:Hf.
+      destruct (push_fold _ _ _ _ _ Hf) as [new [Hq [Hv [Hs [_ _]]]]].
+      destruct (Hinv x (Hqv x (or_introl eq_refl))) as [Hkx Hpx].
+      apply (IH d q' vis'); [| |exact Hr].
+      + intros u Hu. subst q' vis'. apply in_app_or in Hu. apply in_or_app.
+        destruct Hu as [Hu|Hu].
+        * right. apply Hqv. right. exact Hu.
+        * left. apply in_rev in Hu. exact Hu.
+      + intros u Hu. subst vis'. apply in_app_or in Hu. destruct Hu as [Hu|Hu].
+        * apply in_rev in Hu. destruct (Hs u Hu) as [H1 [H2 _]].
+          split; [exact H2|]. eapply rt_trans; [exact Hpx|].
+          apply rt_step. unfold GE. auto.
+        * apply Hinv. exact Hu.
+  Qed.
+
+  Lemma gbfs_complete : forall fuel d q vis,
+    (forall u, In u vis -> ~ In u q -> u <> d /\ forall v, GE u v -> In v vis) ->
+    gbfs fuel d q vis = Some false ->
+    forall s, In s vis -> ~ clos_refl_trans nat GE s d.
+  Proof.
+    induction fuel as [|f IH]; intros d q vis Hinv Hr s Hs; [discriminate|].
+    cbn [gbfs] in Hr. destruct q as [|x q].
+    - intros Hp.
+      assert (Hd : In d vis).
+      { apply (crt_closed GE (fun u => In u vis)) with (s := s); [|exact Hp|exact Hs].
+        intros u v Hu Huv. apply (Hinv u Hu); [intros []|exact Huv]. }
+      destruct (Hinv d Hd) as [Hne _]; [intros []|]. apply Hne. reflexivity.
+    - destruct (Nat.eqb x d) eqn:Hxd; [discriminate|].
+      apply Nat.eqb_neq in Hxd.
+      destruct (fold_left (bfs_push g) (nbrs x) (q, vis)) as [q' vis'] eqn:Hf.
+      destruct (push_fold _ _ _ _ _ Hf) as [new [Hq [Hv [_ [Hcpl _]]]]].
+      apply (IH d q' vis'); [|exact Hr|].
+      + intros u Hu Hnq. subst q' vis'.
+        apply in_app_or in Hu. destruct Hu as [Hu|Hu].
+        * exfalso. apply Hnq. apply in_or_app. right. apply in_rev. exact Hu.
+        * destruct (Nat.eq_dec u x) as [Hux|Hux].
+          -- subst u. split; [exact Hxd|].
+             intros v [_ [Hvn Hvk]]. apply Hcpl; assumption.
+          -- destruct (Hinv u Hu) as [Hne Hcl].
+             { intros [Hc|Hc]; [apply Hux; symmetry; exact Hc|].
+               apply Hnq. apply in_or_app. left. exact Hc. }
+             split; [exact Hne|]. intros v Huv. apply in_or_app. right.
+             apply Hcl. exact Huv.
+      + subst vis'. apply in_or_app. right. exact Hs.
+  Qed.
+
+  Lemma gbfs_correct s d : In s (keys g) ->
+    gbfs (reachable_fuel g) d [s] [s] <> None /\
+    (gbfs (reachable_fuel g) d [s] [s] = Some true <-> clos_refl_trans nat GE s d).
+  Proof.
+    intros Hs.
+    assert (Hfuel : gbfs (reachable_fuel g) d [s] [s] <> None).
+    { apply gbfs_fuel. unfold reachable_fuel. cbn [length].
+      pose proof (cnt_cons_lt (keys g) s [] Hs (fun H => H)) as H1.
+      pose proof (cnt_le_length (keys g) []) as H2. rewrite keys_length in H2. lia. }
+    split; [exact Hfuel|]. split.
+    - intros Hr. apply (gbfs_sound s _ _ _ _) with (3 := Hr).
+      + intros u Hu. exact Hu.
+      + intros u [Hu|[]]. subst u. split; [exact Hs|apply rt_refl].
+    - intros Hp. destruct (gbfs (reachable_fuel g) d [s] [s]) as [[|]|] eqn:Hr.
+      + reflexivity.
+      + exfalso. apply (gbfs_complete _ _ _ _) with (2 := Hr) (s := s); [|left; reflexivity|exact Hp].
+        intros u Hu Hnu. exfalso. apply Hnu. exact Hu.
+      + exfalso. apply Hfuel. reflexivity.
+  Qed.
+
+End GBFS.
+
+(* ------------------------------------------------------------------ *)
+(* reachable                                                            *)
+(* ------------------------------------------------------------------ *)
+
+Lemma bfs_gbfs g : forall f d q vis, bfs f g d q vis = gbfs g (adj g) f d q vis.
+Proof.
+  induction f as [|f IH]; intros d q vis; [reflexivity|].
+  cbn [bfs gbfs]. destruct q as [|x q]; [reflexivity|].
+  destruct (Nat.eqb x d); [reflexivity|].
+  destruct (fold_left (bfs_push g) (adj g x) (q, vis)) as [q' vis']. apply IH.
+Qed.
+
+Lemma GE_adj_KEdge g u v : GE g (adj g) u v <-> KEdge g u v.
+Proof. unfold GE, KEdge, Edge. tauto. Qed.
+
+Lemma KPath_GE g s d : KPath g s d <-> clos_refl_trans nat (GE g (adj g)) s d.
+Proof.
+  unfold KPath. split; apply crt_impl; intros u v; apply GE_adj_KEdge.
+Qed.
+
+Lemma reachable_fuel_ok_lem : forall g s d, reachable_opt g s d <> None.
+Proof.
+  intros g s d. unfold reachable_opt. destruct (is_key g s) eqn:Hk; [|discriminate].
+  apply is_key_In in Hk. rewrite bfs_gbfs.
+  apply (gbfs_correct g (adj g) s d Hk).
+Qed.
+
+Lemma reachable_correct_lem :
+  forall g s d, reachable g s d = true <-> (In s (keys g) /\ KPath g s d).
+Proof.
+  intros g s d. unfold reachable, reachable_opt. destruct (is_key g s) eqn:Hk.
+  - apply is_key_In in Hk. rewrite bfs_gbfs.
+    destruct (gbfs_correct g (adj g) s d Hk) as [_ Hiff].
+    rewrite KPath_GE. rewrite <- Hiff. split.
+    + intros H. split; [exact Hk|].
+      destruct (gbfs g (adj g) (reachable_fuel g) d [s] [s]) as [[|]|]; congruence.
+    + intros [_ H]. rewrite H. reflexivity.
+  - apply is_key_false in Hk. split; [discriminate|]. intros [H _]. contradiction.
+Qed.
+
+Lemma bi_reachable_correct_lem :
+  forall g s d, bi_reachable g s d = true <->
+    ((In s (keys g) /\ KPath g s d) \/ (In d (keys g) /\ KPath g d s)).
+Proof.
+  intros g s d. unfold bi_reachable. rewrite orb_true_iff.
+  rewrite !reachable_correct_lem. tauto.
+Qed.
+
+Lemma find_all_bi_reachable_correct_lem :
+  forall g s n, In n (find_all_bi_reachable g s) <-> (In n (keys g) /\ bi_reachable g s n = true).
+Proof. intros g s n. unfold find_all_bi_reachable. apply filter_In. Qed.
+
+Lemma find_all_connected_correct_lem :
+  forall g s n, In n (find_all_connected g s) <-> (In n (keys g) /\ connected g s n = true).
+Proof. intros g s n. unfold find_all_connected. apply filter_In. Qed.
+
+(* ------------------------------------------------------------------ *)
+(* connected                                                            *)
+(* ------------------------------------------------------------------ *)
+
+(* the vertices the loop "for node, adjs in graph.items()" tries to push for x *)
+Definition cand_item (x : nat) (item : nat * list nat) : list nat :=
+  (if Nat.eqb x (fst item) then snd item else []) ++
+  (if mem x (snd item) then [fst item] else []).
+
+Definition cands (x : nat) (items : list (nat * list nat)) : list nat :=
+  flat_map (cand_item x) items.
+
+Lemma conn_item_push g x : forall items st,
+  incl items g ->
+  fold_left (conn_item g x) items st = fold_left (bfs_push g) (cands x items) st.
+Proof.
+  induction items as [|[node adjs] items IH]; intros st Hincl; [reflexivity|].
+  cbn [fold_left cands flat_map]. fold (cands x items).
+  rewrite fold_left_app.
+  assert (Hk : is_key g node = true).
+  { apply is_key_In. change node with (fst (node, adjs)). apply in_map.
+    apply Hincl. left. reflexivity. }
+  rewrite <- IH by (intros y Hy; apply Hincl; right; exact Hy).
+  f_equal. unfold cand_item. cbn [fst snd]. rewrite fold_left_app.
+  unfold conn_item.
+  set (st1 := if Nat.eqb x node then fold_left (bfs_push g) adjs st else st).
+  assert (Hst1 : fold_left (bfs_push g) (if Nat.eqb x node then adjs else []) st = st1).
+  { unfold st1. destruct (Nat.eqb x node); reflexivity. }
+  rewrite Hst1. destruct st1 as [q vis].
+  destruct (mem x adjs); cbn [fold_left bfs_push andb].
+  - rewrite Hk. reflexivity.
+  - reflexivity.
+Qed.
+
+Lemma cbfs_gbfs g : forall f d q vis,
+  cbfs f g d q vis = gbfs g (fun x => cands x g) f d q vis.
+Proof.
+  induction f as [|f IH]; intros d q vis; [reflexivity|].
+  cbn [cbfs gbfs]. destruct q as [|x q]; [reflexivity|].
+  destruct (Nat.eqb x d); [reflexivity|].
+  rewrite conn_item_push by apply incl_refl.
+  destruct (fold_left (bfs_push g) (cands x g) (q, vis)) as [q' vis']. apply IH.
+Qed.
+
+Lemma In_cands x items v :
+  In v (cands x items) <->
+  exists node adjs, In (node, adjs) items /\
+    ((x = node /\ In v adjs) \/ (In x adjs /\ v = node)).
+Proof.
+  unfold cands. rewrite in_flat_map. split.
+  - intros [[node adjs] [Hin Hv]]. exists node, adjs. split; [exact Hin|].
+    unfold cand_item in Hv. cbn [fst snd] in Hv. apply in_app_or in Hv.
+    destruct Hv as [Hv|Hv].
+    + destruct (Nat.eqb x node) eqn:E; [|contradiction].
+      apply Nat.eqb_eq in E. left. split; assumption.
+    + destruct (mem x adjs) eqn:E; [|contradiction].
+      apply mem_In in E. destruct Hv as [Hv|[]]. right. split; [exact E|symmetry; exact Hv].
+  - intros [node [adjs [Hin Hv]]]. exists (node, adjs). split; [exact Hin|].
+    unfold cand_item. cbn [fst snd]. apply in_or_app. destruct Hv as [[Hx Hv]|[Hx Hv]].
+    + left. subst x. rewrite Nat.eqb_refl. exact Hv.
+    + right. apply mem_In in Hx. rewrite Hx. left. symmetry. exact Hv.
+Qed.
+
+Lemma GE_cands_UEdge g u v : WfGraph g ->
+  (GE g (fun x => cands x g) u v <-> UEdge g u v).
+Proof.
+  intros Hwf. unfold GE, UEdge, KEdge, Edge. rewrite In_cands. split.
+  - intros [Hu [[node [adjs [Hin Hc]]] Hv]].
+    pose proof (wf_item g node adjs Hwf Hin) as Hadj.
+    destruct Hc as [[Hx Hva]|[Hx Hvn]].
+    + left. subst node. rewrite Hadj. tauto.
+    + right. subst node. rewrite Hadj. tauto.
+  - intros [[[Hu Hva] Hv]|[[Hv Hua] Hu]].
+    + split; [exact Hu|]. split; [|exact Hv].
+      exists u, (adj g u). split; [apply key_item; exact Hu|]. left. tauto.
+    + split; [exact Hu|]. split; [|exact Hv].
+      exists v, (adj g v). split; [apply key_item; exact Hv|]. right. tauto.
+Qed.
+
+Lemma connected_fuel_ok_lem : forall g s d, connected_opt g s d <> None.
+Proof.
+  intros g s d. unfold connected_opt. destruct (is_key g s) eqn:Hk; [|discriminate].
+  apply is_key_In in Hk. rewrite cbfs_gbfs.
+  apply (gbfs_correct g (fun x => cands x g) s d Hk).
+Qed.
+
+Lemma connected_correct_lem :
+  forall g s d, WfGraph g -> (connected g s d = true <-> (In s (keys g) /\ UPath g s d)).
+Proof.
+  intros g s d Hwf. unfold connected, connected_opt. destruct (is_key g s) eqn:Hk.
+  - apply is_key_In in Hk. rewrite cbfs_gbfs.
+    destruct (gbfs_correct g (fun x => cands x g) s d Hk) as [_ Hiff].
+    assert (Hup : UPath g s d <-> clos_refl_trans nat (GE g (fun x => cands x g)) s d).
+    { unfold UPath. split; apply crt_impl; intros u v; apply GE_cands_UEdge; exact Hwf. }
+    rewrite Hup. rewrite <- Hiff. split.
+    + intros H. split; [exact Hk|].
+      destruct (gbfs g (fun x => cands x g) (reachable_fuel g) d [s] [s]) as [[|]|]; congruence.
+    + intros [_ H]. rewrite H. reflexivity.
+  - apply is_key_false in Hk. split; [discriminate|]. intros [H _]. contradiction.
+Qed.
